@@ -521,6 +521,11 @@ class Evaluator:
                 return Term.atom("tuple(" + k0[1:-1] + ")")  # tuple of a list whose elements are known
         if name == "cast" and len(args) == 2 and not node.keywords:
             return args[1]  # typing.cast returns its second argument unchanged
+        if name == "len_" and len(node.args) == 1 and isinstance(node.args[0], ast.Lambda) and len(node.args[0].args.args) == 1:
+            # len_(lambda this: E) and len_(<this-expression E>) are the same context function
+            lam_ = node.args[0]
+            inner_ = self.child(dict(self.env), this_names=set(self.this_names) | {lam_.args.args[0].arg}).ev(lam_.body)
+            return Term.atom(f"len({inner_.key()})")
         if name in ("len", "len_") and len(args) == 1:  # construct's len_ is len on the context value
             return Term.atom(f"len({args[0].key()})")
         if name == "abs" and len(args) == 1 and args[0].is_const():
